@@ -595,9 +595,40 @@ func plans() []plan {
 	return ps
 }
 
+// manyKeys: for the histories that build a queue of a dozen and more items (a heap deep enough for its
+// sift-up / sift-down paths to matter when an item in the middle or at a leaf is taken out)
+var manyKeys = []string{"a", "b", "c", "d", "", "e", "f", "g", "h", "i", "j", "k", "l", "m", "n", "o"}
+
 func genRandom(rng *mon.RNG) ([]op, bool) {
 	n := rng.Range(4, 24)
 	var ops []op
+	if rng.Chance(1, 3) {
+		// a big queue first: 7-16 items with distinct keys and well-separated times in a seeded order, then
+		// removals of seeded keys, then the clock is walked past all of them
+		ks := append([]string{}, manyKeys[:rng.Range(7, len(manyKeys))]...)
+		perm := make([]int, len(ks))
+		for i := range perm {
+			perm[i] = i
+		}
+		for i := len(perm) - 1; i > 0; i-- {
+			j := rng.Intn(i + 1)
+			perm[i], perm[j] = perm[j], perm[i]
+		}
+		for i, pi := range perm {
+			ops = append(ops, op{Kind: "enq", Key: ks[pi], Off: time.Duration(1+((i*7)%len(ks)))*time.Second + time.Duration(pi)*time.Millisecond})
+		}
+		for k := rng.Range(3, 9); k > 0; k-- {
+			ops = append(ops, op{Kind: "deq", Key: ks[rng.Intn(len(ks))]})
+			if rng.Bool() {
+				ops = append(ops, op{Kind: "enq", Key: ks[rng.Intn(len(ks))], Off: time.Duration(rng.Range(1, 20)) * 700 * time.Millisecond})
+			}
+		}
+		for i := 0; i < len(ks)+2; i++ {
+			ops = append(ops, op{Kind: "sleep", Off: time.Second})
+		}
+		ops = append(ops, op{Kind: "big-queue-marker"})
+		n = rng.Range(0, 6)
+	}
 	for i := 0; i < n; i++ {
 		switch r := rng.Intn(100); {
 		case r < 5:
@@ -641,7 +672,7 @@ func TestCheck(t *testing.T) {
 	rec = mon.Open("C06")
 	defer rec.Close()
 	rec.Note("rule", "a case is one history run against the real Processor in a synctest bubble: (directed) the loop parked at each hook point x hit 1-2 x each placed operation kind (pairs of kinds as well); (random) 4-24 seeded Enqueue/Dequeue/Sleep/Close operations in lock-step with seeded hook parking; (racing) 2-4 goroutines issuing operations at the same virtual instants. Non-trivial = at least one callback was observed or an item was removed before running; distinct = distinct operation list.")
-	rec.Note("require", []string{"park.loop.start", "park.loop.empty", "park.loop.peeked", "park.loop.armed", "park.loop.fired", "park.exec.popped", "callbacks", "callback.reentrant_enqueue", "callback.reentrant_dequeue", "enq.far_future_item", "placed.close", "placed.enq", "placed.deq", "racing.same_instant_ops", "gated.close_waited_for_callback", "placed.second_close", "twoloops.both_parked", "rearm.same_object_enqueued_again_from_its_callback", "rearm.same_object_put_back_with_a_new_time", "rearm.scenarios_ok.callback-rearms-itself", "rearm.scenarios_ok.owner-takes-out-moves-later-puts-back", "rearm.scenarios_ok.owner-takes-out-moves-earlier-puts-back", "rearm.scenarios_ok.owner-replaces-in-place-later"})
+	rec.Note("require", []string{"park.loop.start", "park.loop.empty", "park.loop.peeked", "park.loop.armed", "park.loop.fired", "park.exec.popped", "callbacks", "callback.reentrant_enqueue", "callback.reentrant_dequeue", "enq.far_future_item", "placed.close", "placed.enq", "placed.deq", "racing.same_instant_ops", "gated.close_waited_for_callback", "placed.second_close", "twoloops.both_parked", "random.big_queue_histories", "rearm.same_object_enqueued_again_from_its_callback", "rearm.same_object_put_back_with_a_new_time", "rearm.scenarios_ok.callback-rearms-itself", "rearm.scenarios_ok.owner-takes-out-moves-later-puts-back", "rearm.scenarios_ok.owner-takes-out-moves-earlier-puts-back", "rearm.scenarios_ok.owner-replaces-in-place-later"})
 	ps := plans()
 	rec.Planned(len(ps))
 	for idx, pl := range ps {
@@ -801,6 +832,9 @@ func runSeq(t *testing.T, idx int, pl plan) {
 				doClose()
 			case "sleep":
 				time.Sleep(o.Off)
+			case "big-queue-marker":
+				rec.Count("random.big_queue_histories", 1)
+				continue
 			case "gate-on":
 				w.gateOn.Store(true)
 				continue
